@@ -95,8 +95,10 @@ MInventory == \E healthy \in SUBSET Devs :
     /\ freeL' = [t \in Types |-> [m \in Minors |-> [r \in ResOf(t) |-> Max0(inv[t][m][r] - usedL[t][m][r])]]]   \* resetDeviceTotal
     /\ akOK' = TRUE
 
-MAlloc == \E p \in Pods, t \in Types, cnt \in 1..MaxCnt, required \in SUBSET Minors, pref \in {{}} \cup {{m} : m \in Minors},
-             commit \in BOOLEAN :
+\* (a scheduling attempt that is not committed leaves the state unchanged and has the same outcome: commit = TRUE only;
+\*  required = all minors is the same as no restriction)
+MAlloc == \E p \in Pods, t \in Types, cnt \in 1..MaxCnt, required \in (SUBSET Minors) \ {Minors}, pref \in {{}, {Max(Minors)}},
+             commit \in {TRUE} :
           \E req \in ReqMenu(t) :
     LET out  == AllocImpl(t, req, cnt, (t :> required), pref)
         reqs == (t :> [req |-> req, cnt |-> cnt])
@@ -118,7 +120,7 @@ MTouch     == \E p \in Pods : Touch(p) /\ Deliver(p, api[p], api[p])
 MReAdd     == \E p \in Pods : ReAdd(p) /\ Deliver(p, NoPod, api[p])
 MAnnotate  == \E p \in Pods, e \in ForeignMenu : Annotate(p, {e}) /\ Deliver(p, api[p], api'[p])
 MTerminate == \E p \in Pods : Terminate(p) /\ Deliver(p, api[p], api'[p])
-MUnassign  == \E p \in Pods : Unassign(p) /\ Deliver(p, api[p], api'[p])
+MUnassign  == \E p \in Pods : Unassign(p) /\ Deliver(p, api[p], [api[p] EXCEPT !.node = FALSE])
 MDelete    == \E p \in Pods : Delete(p) /\ Becomes(DeletePod(Cur, total, p, api[p])) /\ akOK' = TRUE
 \* duplicate delete: the handler gets some object the pod had before it went away (any assigned object with a menu allocation)
 MReDelete  == \E p \in Pods, e \in ForeignMenu :
